@@ -326,8 +326,8 @@ def _prepare(h: _Helper, call: ast.Call, caller, stmt_ctx: bool) -> Optional[Tup
         arg = b[p]
         if p in h.stores_params:
             direct = False
-        elif _is_atomic(arg):
-            direct = True
+        elif _is_atomic(arg) or isinstance(arg, ast.Lambda):
+            direct = True      # evaluating a lambda expression has no effect: it may be repeated where the parameter is read
         elif _reads(h.node, p) <= 1 and not _in_repeating_context(h.node, p):
             direct = True
         elif not _has_call(arg) and not stmt_ctx:
